@@ -17,10 +17,13 @@ echo "suite-with-change: ${SUITE:-green}"
 bash -c "$DEMOCMD" >/tmp/seed/$S.with.log 2>&1; echo "demo-with-change rc=$? (expect !=0)"
 git checkout -q -- . ; bash -c "$DEMOCMD" >/tmp/seed/$S.without.log 2>&1; echo "demo-without-change rc=$? (expect 0)"
 git apply $O/patch.diff
-git -C /repo apply $O/patch.diff || { echo "does not apply to /repo"; exit 1; }
+R=${VS_REPO:-/repo}
+if [ "$R" != /repo ]; then git -C $R checkout -q -- . ; git -C $R pull -q; export VERIF_REPO=$R; fi
+PATCH=$O/patch.diff; [ -f $O/patch.rebased.diff ] && PATCH=$O/patch.rebased.diff
+git -C $R apply $PATCH || { echo "does not apply to $R"; exit 1; }
 cd /verif
 for P in "$@"; do
   ./check $P > /tmp/seed/$S.check.$P.log 2>&1; echo "check $P rc=$? $(grep -c VIOLATION /tmp/seed/$S.check.$P.log) violation line(s): $(grep VIOLATION /tmp/seed/$S.check.$P.log | head -1 | cut -c1-160)"
 done
-git -C /repo checkout -q -- .
+git -C $R checkout -q -- .
 mkdir -p /verif/seeded/$S && cp $O/* /verif/seeded/$S/
